@@ -93,6 +93,13 @@ def gen_case(rng, tier, i):
         call["fill_value"] = fillv(rng)
     elif r < 0.45:
         call["fill_value"] = {a["name"]: fillv(rng) for a in layout.axes if rng.random() < 0.6}
+    # the insertion order of a per-axis mapping carries no meaning: list the entries in random order
+    for kw_ in (ctor, call):
+        for k_ in ("boundary", "fill_value", "to"):
+            if isinstance(kw_.get(k_), dict):
+                items_ = list(kw_[k_].items())
+                rng.shuffle(items_)
+                kw_[k_] = dict(items_)
     case = {"layout": {"axes": layout.axes, "extra": layout.extra}, "ctor": ctor,
             "dims": [d for d, _ in dims], "data": data.tolist(), "call": call}
     r = rng.random()
